@@ -66,6 +66,7 @@ static void vf_clock_advance (void) {
 	int64_t s = (int64_t) (((uint64_t) vf_nondet_u32 () << 32) | vf_nondet_u32 ());
 	int64_t n = (int64_t) vf_nondet_u32 ();
 	VF_ASSUME (n >= 0 && n < 1000000000 && vf_time_le (vf_now_s, vf_now_ns, s, n));
+	VF_ASSUME (s < ((int64_t) 1 << 40));     /* the virtual clock stays below 2^40 s (year 36812): no time arithmetic near INT64_MAX */
 	vf_now_s = s; vf_now_ns = n;
 #endif
 }
@@ -106,6 +107,24 @@ static void vf_wrote_ (void) { int i_; for (i_ = 0; i_ < VF_NT; i_++) { vf_dirty
 #define VF_WROTE() vf_wrote_ ()
 static void vf_spin_mark (int t) { vf_dirty[t] = 0; }
 
+#ifdef VF_HB
+/* happens-before is computed in vf_hb.h (included by the generated code after the cell table) */
+static void vf_hb_load (int t, uint64_t a, int ord);
+static void vf_hb_store (int t, uint64_t a, int ord);
+static void vf_hb_rmw (int t, uint64_t a, int ord);
+static void vf_hb_plain (int t, uint64_t a, int wr);
+#define VF_ATOMIC_LOAD_HOOK(a, ord) vf_hb_load (vf_t, (a), (ord))
+#define VF_ATOMIC_STORE_HOOK(a, ord) vf_hb_store (vf_t, (a), (ord))
+#define VF_ATOMIC_RMW_HOOK(a, ord) vf_hb_rmw (vf_t, (a), (ord))
+#define VF_FENCE(ord) do { } while (0)
+#define VF_SEM_ACQ(a) do { } while (0)       /* no ordering is credited to the sleeping primitive */
+#define VF_SEM_REL(a) do { } while (0)
+#define VF_PLAIN_RD(a) vf_hb_plain (vf_t, (a), 0)
+#define VF_PLAIN_WR(a) vf_hb_plain (vf_t, (a), 1)
+#else
+#define VF_PLAIN_RD(a) do { } while (0)
+#define VF_PLAIN_WR(a) do { } while (0)
+#endif
 #ifndef VF_HB
 #define VF_ATOMIC_LOAD_HOOK(a, ord) do { } while (0)
 #define VF_ATOMIC_STORE_HOOK(a, ord) do { } while (0)
